@@ -166,3 +166,19 @@ def ratSurfaceDers (SKLw : List (List (List K))) (order : Nat) : List (List (Lis
 
 end
 end Geomdl
+
+namespace Geomdl
+section
+variable {K : Type} [LT K] [DecidableRel (α := K) (· < ·)]
+
+/-- `utilities.evaluate_bounding_box`: coordinatewise minimum and maximum scan (the `±inf` start
+    values are replaced by the first point) -/
+def boundingBox (P : List (List K)) : List K × List K :=
+  match P with
+  | [] => ([], [])
+  | p0 :: rest =>
+    rest.foldl (fun (acc : List K × List K) pt =>
+      (List.zipWith (fun c m => if c < m then c else m) pt acc.1,
+       List.zipWith (fun c m => if m < c then c else m) pt acc.2)) (p0, p0)
+end
+end Geomdl
